@@ -15,6 +15,7 @@ import math
 import multiprocessing as mp
 import os
 import random
+import shutil
 from fractions import Fraction
 from unittest import mock
 
@@ -236,6 +237,8 @@ def gen_case(rng, tier_thorough=False, kind=None, big=False):
         case["cfg"] = None
         case["fail_rows"] = []
     case["order"] = [rng.randrange(nrows) for _ in range(rng.randint(0, nrows + 1))]
+    # a result cache: an empty directory, or one the same scan has filled before (every row is then LOADED)
+    case["cache"] = rng.choice([None, None, None, "fresh", "warm"])
     return case
 
 
@@ -244,6 +247,7 @@ def gen_mcscan(rng):
     if case["cfg"] is not None:
         case["cfg"]["fail"] = []
     case["kind"] = "mcscan"
+    case["cache"] = None
     case["rows"] = [[i, r] for i, (_, r) in enumerate(case["rows"][:3])]
     case["order"] = []
     case["fail_rows"] = []
@@ -406,6 +410,18 @@ def _proto(case):
     return make_protocol(steps)
 
 
+_scratch = [0]
+
+
+def _scratch_dir():
+    from pathlib import Path
+
+    _scratch[0] += 1
+    d = Path(__file__).resolve().parent.parent / ".work" / f"c09cache-{os.getpid()}-{_scratch[0]}"
+    shutil.rmtree(d, ignore_errors=True)
+    return d
+
+
 def run_real(case, mode):
     """the scan under test; canonical observation or {"err": [cls]}"""
     import numpy as np
@@ -428,14 +444,29 @@ def run_real(case, mode):
         if kind == "proto":
             kw["time_points_per_step"] = case["steps"]
         name = {"ss": "steady_state", "tc": "time_course", "proto": "protocol", "ptc": "protocol_time_course"}[kind]
-        with L.quiet():
+        tmp = None
+        if case.get("cache"):
+            from mxlpy.parallel import Cache
+
+            tmp = _scratch_dir()
+            kw["cache"] = Cache(tmp_dir=tmp)
+
+        def call():
             if mode[0] == "mc":
-                res = getattr(mc, name)(m, mc_to_scan=table, max_workers=mode[1], **kw)
-            elif mode[0] == "seq":
-                res = getattr(scan, name)(m, to_scan=table, parallel=False, **kw)
-            else:
-                with mock.patch("multiprocessing.cpu_count", return_value=mode[1]):
-                    res = getattr(scan, name)(m, to_scan=table, parallel=True, **kw)
+                return getattr(mc, name)(m, mc_to_scan=table, max_workers=mode[1], **kw)
+            if mode[0] == "seq":
+                return getattr(scan, name)(m, to_scan=table, parallel=False, **kw)
+            with mock.patch("multiprocessing.cpu_count", return_value=mode[1]):
+                return getattr(scan, name)(m, to_scan=table, parallel=True, **kw)
+
+        try:
+            with L.quiet():
+                if case.get("cache") == "warm":
+                    call()  # fills the directory; the observed call below finds every row stored
+                res = call()
+        finally:
+            if tmp is not None:
+                shutil.rmtree(tmp, ignore_errors=True)
         # touch the lazily evaluated results in the requested order first
         raw = res.raw_results if kind == "ss" else list(res.raw_results.values())
         for i in case.get("order", []):
@@ -590,6 +621,8 @@ def run_oracle(case):
 
     if case["kind"] == "mcscan":
         return run_oracle_mcscan(case)
+    if case.get("cache") and len({l for l, _ in case["rows"]}) < len(case["rows"]):
+        return {"err": ["ValueError"]}  # results are stored per row label: a cache with repeated labels is refused
     try:
         kind = case["kind"]
         per_row = []
@@ -651,6 +684,8 @@ def model_request(case, mode, rng_seed=0):
     for k in ("tps", "proto", "steps"):
         if k in case:
             req[k] = case[k]
+    if case.get("cache"):
+        req["cache"] = case["cache"]
     if mode[0] == "seq":
         req["mode"] = "seq"
     elif mode[0] == "legacy":
@@ -809,7 +844,8 @@ def shape(case):
     return (f"{case['kind']}-cols{len(case['cols'])}-rows{min(len(case['rows']), 8)}{'+' if len(case['rows']) > 8 else ''}"
             f"-ia{min(ia, 2)}-{'scanvar' if scan_var else 'scanpar'}-{'euler' if case['cfg'] else 'lsoda'}"
             f"-fail{min(len(case.get('fail_rows', [])), 2)}{'-tol' if (case['cfg'] or {}).get('tol') else ''}"
-            f"{'-readout' if c.get('readouts') else ''}{'-surrogate' if c.get('surs') else ''}{'-' + label_kind(case)}")
+            f"{'-readout' if c.get('readouts') else ''}{'-surrogate' if c.get('surs') else ''}{'-' + label_kind(case)}"
+            f"{'-cache' + case['cache'] if case.get('cache') else ''}")
 
 
 def judge_case(ctx, case, modes, S, Rs, Ms):
@@ -844,8 +880,8 @@ def evaluate(ctx, cases_modes):
     reqs, where = [], []
     for ci, ((case, modes), (S, Rs)) in enumerate(zip(jobs, outs)):
         for mi, mode in enumerate(modes):
-            if ctx.driver_ok and case["cfg"] is not None and "res" in S and case["kind"] != "mcscan" \
-                    and case.get("zerodiv_rows") is None:
+            if ctx.driver_ok and case["cfg"] is not None and ("res" in S or (case.get("cache") and "err" in S)) \
+                    and case["kind"] != "mcscan" and case.get("zerodiv_rows") is None:
                 reqs.append(model_request(case, mode, rng_seed=ci * 31 + mi))
                 where.append((ci, mi))
     answers = driver.call_batch(reqs, timeout=300.0) if reqs else []
@@ -853,6 +889,136 @@ def evaluate(ctx, cases_modes):
     for (ci, mi), a in zip(where, answers):
         Ms[ci][mi] = canon_model(a, outs[ci][0], jobs[ci][0])
     return [(S, Rs, Ms[ci]) for ci, (S, Rs) in enumerate(outs)]
+
+
+# --------------------------------------------------------------------------- `parallelise` itself
+
+
+def gen_par_case(rng, with_timeout=False):
+    """a direct call of parallel.parallelise over `c09lib.toy_fn`: keys (distinct or repeated), inputs (some raise),
+    sequential / pool with 1-16 processes, no cache / empty directory / a directory that already holds some keys
+    (whatever is stored wins: the function is not called), and - pool only - inputs that exceed the timeout"""
+    n = rng.randint(0, 7)
+    keys = rng.sample(range(20), n)
+    if n > 1 and rng.random() < 0.25:
+        keys[rng.randrange(1, n)] = keys[0]  # a repeated key
+    xs = [rng.choice([0, 1, 2, 3, 5, 8, "1/2", "3/4"]) for _ in range(n)]
+    if n and rng.random() < 0.3:
+        xs[rng.randrange(n)] = rng.choice([-1, -2])  # raises
+    mode = ["seq"] if rng.random() < 0.4 and not with_timeout else ["par", rng.choice([1, 2, 3, 16])]
+    r = rng.random()
+    store = None if r < 0.4 else ([] if r < 0.6 else [[k, rng.choice([7, 9, 11])] for k in dict.fromkeys(rng.sample(keys + [97, 98], rng.randint(1, max(1, n))))])
+    case = {"kind": "parallelise", "inputs": [[k, str(x)] for k, x in zip(keys, xs)], "mode": mode, "store": store,
+            "timed_out": []}
+    if with_timeout and n:
+        slow = sorted(rng.sample(range(n), rng.randint(1, min(2, n))))
+        for i in slow:
+            case["inputs"][i][1] = "1000"
+        # a stored key is loaded, not run: it cannot time out
+        case["timed_out"] = [i for i in slow if store is None or case["inputs"][i][0] not in {k for k, _ in store}]
+        case["timeout"] = 2.0
+    return case
+
+
+def run_real_par(case):
+    from mxlpy.parallel import Cache, parallelise
+
+    tmp = None
+    try:
+        kw = {}
+        if case["store"] is not None:
+            tmp = _scratch_dir()
+            cache = Cache(tmp_dir=tmp)
+            tmp.mkdir(parents=True, exist_ok=True)
+            for k, v in case["store"]:
+                cache.save_fn(tmp / cache.name_fn(k), float(v))
+            kw["cache"] = cache
+        inputs = [(k, L.fl(x)) for k, x in case["inputs"]]
+        with L.quiet():
+            res = parallelise(L.toy_fn, inputs, parallel=case["mode"][0] != "seq",
+                              max_workers=case["mode"][1] if case["mode"][0] != "seq" else None,
+                              timeout=case.get("timeout"), **kw)
+        out = {"res": [[int(k), float(v)] for k, v in res]}
+        if case["store"] is not None:
+            cache = kw["cache"]
+            ks = list(dict.fromkeys([k for k, _ in case["store"]] + [k for k, _ in case["inputs"]]))
+            out["store"] = sorted([int(k), float(cache.load_fn(tmp / cache.name_fn(k)))] for k in ks if (tmp / cache.name_fn(k)).exists())
+        return out
+    except Exception as e:  # noqa: BLE001
+        return {"err": [type(e).__name__]}
+    finally:
+        if tmp is not None:
+            shutil.rmtree(tmp, ignore_errors=True)
+
+
+def oracle_par(case):
+    """declarative: what the mapping must be, input by input"""
+    keys = [k for k, _ in case["inputs"]]
+    stored = None if case["store"] is None else {k: float(v) for k, v in case["store"]}
+    if stored is not None and len(set(keys)) < len(keys):
+        return {"err": ["ValueError"]}
+    res, new = [], {}
+    for i, (k, x) in enumerate(case["inputs"]):
+        if stored is not None and k in stored:
+            res.append([k, stored[k]])
+        elif i in case["timed_out"]:
+            continue  # cancelled: no result (and nothing is stored)
+        elif Fraction(x) < 0:
+            return {"err": ["ValueError"]}
+        else:
+            res.append([k, float(2 * Fraction(x))])
+            new[k] = float(2 * Fraction(x))
+    out = {"res": res}
+    if stored is not None:
+        out["store"] = sorted([k, v] for k, v in {**stored, **new}.items())
+    return out
+
+
+def par_request(case, seed):
+    r = random.Random(seed)
+    n = case["mode"][1] if case["mode"][0] != "seq" else 1
+    return {"op": "c09", "what": "parallelise", "inputs": case["inputs"], "store": case["store"],
+            "parallel": case["mode"][0] != "seq", "n": n, "assign": [r.randrange(n) for _ in case["inputs"]],
+            "timed_out": case["timed_out"]}
+
+
+def canon_par(a):
+    if "err" in a["res"]:
+        return {"err": [a["res"]["err"][0]]}
+    out = {"res": [[int(k), L.qf(v)] for k, v in a["res"]["ok"]]}
+    if a.get("store") is not None:
+        out["store"] = sorted([int(k), L.qf(v)] for k, v in a["store"])
+    return out
+
+
+def _work_par(case):
+    import signal
+    import warnings
+
+    warnings.filterwarnings("ignore")
+    signal.signal(signal.SIGALRM, _alarm)
+    signal.alarm(180)
+    try:
+        return oracle_par(case), run_real_par(case)
+    except JobTimeout:
+        raise RuntimeError("watchdog: parallelise case did not finish in 180 s: " + str(case)) from None
+    finally:
+        signal.alarm(0)
+
+
+def run_par_stratum(ctx, rng, thorough):
+    cases = [gen_par_case(rng) for _ in range(60 if thorough else 14)]
+    cases += [gen_par_case(rng, with_timeout=True) for _ in range(6 if thorough else 1)]
+    outs = list(pool().map(_work_par, cases, chunksize=1))
+    answers = driver.call_batch([par_request(c, 7 * i) for i, c in enumerate(cases)]) if ctx.driver_ok else [None] * len(cases)
+    for case, (S, R), a in zip(cases, outs, answers):
+        M = None if a is None else (canon_par(a) if "res" in a else {"driver": a})
+        if "err" in R:
+            M = None if M is None else ({"err": M["err"]} if "err" in M else M)
+        ctx.count(case, f"parallelise-{case['mode'][0]}-{'nocache' if case['store'] is None else ('empty' if not case['store'] else 'prefilled')}"
+                        f"{'-timeout' if case['timed_out'] else ''}{'-raises' if 'err' in S else ''}"
+                        f"{'-repkeys' if len({k for k, _ in case['inputs']}) < len(case['inputs']) else ''}", True)
+        ctx.judge(case, L.jnum(R), L.jnum(S), None if M is None else L.jnum(M), what="parallelise")
 
 
 def setup(ctx):
@@ -899,6 +1065,7 @@ def run(ctx):
             case = gen_case(rng, True)
             if finalize(case):
                 cases.append(case)
+    run_par_stratum(ctx, rng, thorough)
     batch = 48
     for b in range(0, len(cases), batch):
         chunk = cases[b:b + batch]
@@ -949,6 +1116,14 @@ def corpus():
 
 def replay(ctx, rp):
     case = rp["case"]
+    if case.get("kind") == "parallelise":
+        S, R = _work_par(case)
+        a = driver.call_batch([par_request(case, 0)])[0] if ctx.driver_ok else None
+        M = None if a is None else (canon_par(a) if "res" in a else {"driver": a})
+        print("S =", S, "\nR =", R, "\nM =", M)
+        ctx.count(case, "parallelise", True)
+        ctx.judge(case, L.jnum(R), L.jnum(S), None if M is None else L.jnum(M), what="parallelise")
+        return
     modes = case.get("modes") or [["seq"]]
     (S, Rs, Ms), = evaluate(ctx, [(case, modes)])
     print("S =", S)
